@@ -107,6 +107,7 @@ def parseInstr (ws : List String) : Option (Instr Float) :=
   | ["sget", sl, r, f] => some (.sget sl.toNat! r.toNat! f.toNat!)
   | ["ret", v] => some (.ret (parseVal v))
   | ["raise", ty, a] => some (.raise ty a.toInt!)
+  | ["retev", sl] => some (.retev sl.toNat!)
   | _ => none
 
 def parseRes (ws : List String) : Option ResRec :=
